@@ -38,6 +38,10 @@ func (ks keySchema) getKeyValue(attrs map[string]string, item map[string]*types.
 		return "", err
 	}
 
+	if err := checkNumberKey(val, ks.HashKey, attrs[ks.HashKey]); err != nil {
+		return "", err
+	}
+
 	hashKeyStr := renderKeyPart(val, attrs[ks.HashKey])
 
 	if ks.RangeKey == "" {
@@ -52,6 +56,10 @@ func (ks keySchema) getKeyValue(attrs map[string]string, item map[string]*types.
 	}
 
 	if err := ks.checkNotEmpty(val, ks.RangeKey); err != nil {
+		return "", err
+	}
+
+	if err := checkNumberKey(val, ks.RangeKey, attrs[ks.RangeKey]); err != nil {
 		return "", err
 	}
 
@@ -97,24 +105,43 @@ func renderKeyPart(val interface{}, typ string) string {
 	return fmt.Sprintf("%v", val)
 }
 
-// encodeNumberKey encodes a decimal numeral as sign, exponent and significant digits in a
-// form whose lexicographic order is the numeric order. Numerals it cannot parse are kept as
-// they are.
-func encodeNumberKey(numeral string) string {
+// checkNumberKey refuses a number key that is no number DynamoDB can hold: a numeral that does not
+// parse, more than 38 significant digits, or a magnitude outside 1E-130 .. 9.99E+125. Such values
+// would be filed under their text or, beyond the exponent field of the encoding, under the key
+// of another number
+func checkNumberKey(val interface{}, field, typ string) error {
+	numeral, ok := val.(string)
+	if typ != "N" || !ok {
+		return nil
+	}
+
+	_, exponent, digits, ok := parseNumeral(numeral)
+	if !ok {
+		return fmt.Errorf("%w; field %q: the parameter cannot be converted to a numeric value: %s", ErrInvalidAtrributeValue, field, numeral)
+	}
+
+	// value = 0.digits * 10^exponent
+	if digits != "" && (len(digits) > 38 || exponent < -129 || exponent > 126) {
+		return fmt.Errorf("%w; field %q: number out of range or with more than 38 significant digits: %s", ErrInvalidAtrributeValue, field, numeral)
+	}
+
+	return nil
+}
+
+// parseNumeral splits a decimal numeral into its sign and the value 0.digits * 10^exponent, digits
+// without leading and trailing zeros (empty for zero)
+func parseNumeral(numeral string) (negative bool, exponent int, digits string, ok bool) {
 	s := numeral
-	negative := false
 
 	if strings.HasPrefix(s, "-") || strings.HasPrefix(s, "+") {
 		negative = s[0] == '-'
 		s = s[1:]
 	}
 
-	exponent := 0
-
 	if pos := strings.IndexAny(s, "eE"); pos >= 0 {
 		exp, err := strconv.Atoi(s[pos+1:])
-		if err != nil {
-			return numeral
+		if err != nil || strings.ContainsAny(s[pos+1:], " \t") {
+			return false, 0, "", false
 		}
 
 		exponent = exp
@@ -126,17 +153,28 @@ func encodeNumberKey(numeral string) string {
 		intPart, fracPart = s[:pos], s[pos+1:]
 	}
 
-	digits := intPart + fracPart
-	if digits == "" || strings.Trim(digits, "0123456789") != "" {
-		return numeral
+	all := intPart + fracPart
+	if all == "" || strings.Trim(all, "0123456789") != "" {
+		return false, 0, "", false
 	}
 
-	// value = 0.digits * 10^exponent
 	exponent += len(intPart)
 
-	trimmed := strings.TrimLeft(digits, "0")
-	exponent -= len(digits) - len(trimmed)
+	trimmed := strings.TrimLeft(all, "0")
+	exponent -= len(all) - len(trimmed)
 	trimmed = strings.TrimRight(trimmed, "0")
+
+	return negative, exponent, trimmed, true
+}
+
+// encodeNumberKey encodes a decimal numeral as sign, exponent and significant digits in a
+// form whose lexicographic order is the numeric order. Numerals it cannot parse are kept as
+// they are.
+func encodeNumberKey(numeral string) string {
+	negative, exponent, trimmed, ok := parseNumeral(numeral)
+	if !ok {
+		return numeral
+	}
 
 	if trimmed == "" {
 		return "O"
